@@ -2,6 +2,7 @@ import Setec.Driver.DBDrv
 import Setec.Driver.CryptoDrv
 import Setec.Driver.FsDrv
 import Setec.Driver.HttpDrv
+import Setec.Driver.CliDrv
 import Setec.Generated.Facts
 open Setec.Driver
 
@@ -44,6 +45,11 @@ def main (args : List String) : IO UInt32 := do
     let st ← loop stdin httpLine {} 1
     printCover st.cover
     IO.println s!"SUMMARY family=http steps={st.steps} clause_evals={st.steps * 9} propfail={st.fails} diverge={st.diverges}"
+    return 0
+  | ["cli"] | ["bytes"] =>
+    let st ← loop stdin cliLine {} 1
+    printCover st.cover
+    IO.println s!"SUMMARY family=cli steps={st.cases} clause_evals={st.cases} propfail={st.fails} diverge={st.diverges}"
     return 0
   | ["fs"] =>
     let st ← loop stdin fsLine {} 1
